@@ -202,7 +202,8 @@ def check(ctx):
                         "--sample", "120" if quick else "600", "--paced-every", "10" if quick else "25", "--paced-random", "30" if quick else "100", "--max-len", "40" if quick else "200"], trace)
     st = info["stats"]
     for k in ("stream_context_runs_1_portions", "stream_context_runs_2_portions", "stream_context_runs_3_portions",
-              "stream_context_runs_event_filters_only", "stream_context_runs_other_sets", "export_runs_without_lifecycles_to_keep",
+              "stream_context_runs_event_filters_only", "stream_context_runs_other_sets", "stream_context_runs_chunk_3000000",
+              "stream_context_runs_chunk_4", "stream_context_runs_chunk_1", "export_runs_without_lifecycles_to_keep",
               "export_runs_with_lifecycles_to_keep", "export_runs_lifecycles_to_keep_and_negative_filter_with_lifecycles"):
         paths[k] = st.get(k, 0)
         if not paths[k]:
